@@ -313,7 +313,7 @@ Example C02_kmeans_nonvacuous :
     = Ok [0;0;0;2;2;2;1;1;1]%N
   /\ kmeans Fw (reds_tree Fw ex_tree P_id) (Some ex_id) 2 ex_cfg ex_pts ex_ws [0;2;2;2;2;2;2;2;1]%N
     = Ok [0;0;0;2;2;2;1;1;1]%N
-  /\ kmeans Fw (reds_chk Fw sum_ok_f64 val_ok_f64 T_seq P_id) (Some ex_id) 2 ex_cfg ex_pts ex_ws [0;2;2;2;2;2;2;2;1]%N
+  /\ kmeans Fw (reds_chk Fw sum_ok_f64 val_ok_f64 cmp_ok_f64 T_seq P_id) (Some ex_id) 2 ex_cfg ex_pts ex_ws [0;2;2;2;2;2;2;2;1]%N
     = Ok [0;0;0;2;2;2;1;1;1]%N.
 Proof. exact kmeans_example. Qed.
 
